@@ -11,7 +11,7 @@
 //! reaches an allocation multiplies CBMC's cost by 10-100x); the family of counts is
 //! stated in each bound. A panic that needs a count outside the family is not found.
 //!
-//! @out buffers longer than the stated N, post version 2 names (Vec of PascalStrings: out of memory at 10 GB), kern format 0 with a symbolic pair count (out of memory; fixed counts in C05), cmap format 2 (518-byte key table: no answer in 16 min), GlyfTable::read_dep (its fallback parses a glyph with SimpleGlyph::read_dep: out of memory), WOFF2 simple glyphs with an arbitrary flag byte (symbolic triplet length: no answer in 20 min; per triplet class in C11), decompression (zlib, brotli), whole CFF/CFF2 fonts and DICTs, the charstring interpreter, SimpleGlyph::read_dep (out of memory), subset / whole_font / instance on corrupt fonts, stack depth beyond the composite recursion limit, Font::new (thorough tier of C03)
+//! @out buffers longer than the stated N, MVAR / HVAR headers (no answer in 10 min: ItemVariationStore::read builds Vecs from counts), post version 2 names (Vec of PascalStrings: out of memory at 10 GB), kern format 0 with a symbolic pair count (out of memory; fixed counts in C05), cmap format 2 (518-byte key table: no answer in 16 min), GlyfTable::read_dep (its fallback parses a glyph with SimpleGlyph::read_dep: out of memory), WOFF2 simple glyphs with an arbitrary flag byte (symbolic triplet length: no answer in 20 min; per triplet class in C11), decompression (zlib, brotli), whole CFF/CFF2 fonts and DICTs, the charstring interpreter, SimpleGlyph::read_dep (out of memory), subset / whole_font / instance on corrupt fonts, stack depth beyond the composite recursion limit, Font::new (thorough tier of C03)
 
 use crate::util::*;
 use allsorts::binary::read::ReadScope;
@@ -335,3 +335,43 @@ macro_rules! woff2_header_hostile {
 // @funcs woff2::TransformedGlyphTable::read, Woff2GlyfTable::read_dep
 // @bound 36-byte header + 8 bytes: numGlyphs = 65535, bbox stream size any u32, the other streams empty (the glyph loop ends at its first read)
 woff2_header_hostile!(c01_woff2_glyf_header_65535_glyphs, 65535);
+
+macro_rules! reader_totality {
+    ($name:ident, $ty:ty, $n:expr) => {
+        #[kani::proof]
+        #[kani::unwind(8)]
+        fn $name() {
+            let buf: [u8; $n] = kani::any();
+            let len = any_len($n);
+            let r = ReadScope::new(&buf[..len]).read::<$ty>();
+            kani::cover!(r.is_ok(), "parsed");
+            std::mem::forget(r);
+        }
+    };
+}
+
+// @funcs post::Header::read
+// @bound any 32 bytes truncated anywhere
+reader_totality!(c01_post_header_any_bytes, allsorts::post::Header, 32);
+// @funcs SvgTable::read, SVGDocumentRecord::read_dep
+// @bound any 40 bytes truncated anywhere (record offsets and lengths hostile)
+reader_totality!(c01_svg_any_bytes, allsorts::tables::svg::SvgTable<'_>, 40);
+// @funcs GvarTable::read
+// @bound any 40 bytes truncated anywhere (glyph count, offsets, shared tuple count hostile)
+reader_totality!(c01_gvar_header_any_bytes, allsorts::tables::variable_fonts::gvar::GvarTable<'_>, 40);
+// @funcs StatTable::read
+// @bound any 40 bytes truncated anywhere
+reader_totality!(c01_stat_any_bytes, allsorts::tables::variable_fonts::stat::StatTable<'_>, 40);
+/// OS/2 with any declared table size.
+// @funcs Os2::read_dep
+// @bound any 100 bytes truncated anywhere; table_size any usize
+#[kani::proof]
+#[kani::unwind(8)]
+fn c01_os2_any_bytes() {
+    let buf: [u8; 100] = kani::any();
+    let len = any_len(100);
+    let size: usize = kani::any();
+    let r = ReadScope::new(&buf[..len]).read_dep::<allsorts::tables::os2::Os2>(size);
+    kani::cover!(matches!(&r, Ok(t) if t.version5.is_some()), "version 5 parsed");
+    std::mem::forget(r);
+}
